@@ -35,6 +35,9 @@ def expected_so_numels(method, na, ng, sym):
     return sorted([na * na, na, ng * ng, ng])
 
 
+stats_seen = {}
+
+
 def check_world(cfg, w):
     v = []
     n, k = cfg['world'], cfg['k']
@@ -49,6 +52,25 @@ def check_world(cfg, w):
     holders = {nm: None for nm in dims}
     for r in range(n):
         for ev in w.results[r]:
+            if 'mem_mid' in ev:
+                mem, held = ev['mem_mid'], ev['held_mid']
+                if held['batch'] > 0:
+                    stats_seen['pending'] = True
+                for key, rep in (
+                        ('a_batch', mem['a_batch']),
+                        ('g_batch', mem['g_batch']),
+                        ('factors', mem['a_factors'] + mem['g_factors']),
+                        ('second_order',
+                         mem['a_inverses'] + mem['g_inverses'])):
+                    if rep != held[key]:
+                        v.append(('memory-report', f'rank{r}: memory_usage '
+                                  f'queried between backward and step '
+                                  f'reports {rep} bytes of {key}, tensors '
+                                  f'held: {held[key]}'))
+                if mem['total'] != sum(x for kx, x in mem.items()
+                                       if kx != 'total'):
+                    v.append(('memory-total', f'rank{r}: total '
+                              f'{mem["total"]} (mid-iteration)'))
             if ev['op'][0] != 'mem':
                 continue
             mem, held = ev['mem'], ev['held']
@@ -189,7 +211,10 @@ def case(part, item):
         part.count('executions')
         part.count('transitions', w.stats['points'])
         part.count('states', w.stats['points'] + 1)
+        stats_seen.clear()
         vs = bad or check_world(cfg, w)
+        if stats_seen.get('pending'):
+            part.seen('mid_iteration_query_with_pending_batches', name)
         if vs:
             kinds = '+'.join(sorted({k for k, _ in vs}))
             part.violation(f"{kinds}:{K.method_of(cfg)}:w{cfg['world']}",
@@ -235,7 +260,8 @@ def configs(thorough, seed):
                     [T, M, T, L, M, T, M]
                 out.append({'model': model, 'dtype': 'f32', 'batch': 2,
                             'world': world, 'k': k, 'seed': seed, 'kfac': kk,
-                            'record_factors': False, 'history': hist})
+                            'record_factors': False, 'history': hist,
+                            'mem_mid': not hook})
     return out
 
 
@@ -253,7 +279,9 @@ def main(run: core.Run):
         'pairs {(1,1),(1,2),(2,2),(2,1),(2,3)} x bucketed/unbucketed x '
         'symmetric/dense x 3 methods x colocation x hook/no-hook x 2 models, '
         'history train,mem,train,mem,train,train,mem (every third: with a '
-        'save + load into fresh objects in the middle) under two schedules; at '
+        'save + load into fresh objects in the middle) under two schedules; '
+        'in no-hook configurations memory is also queried between backward '
+        'and step (batch statistics pending, per category); at '
         'every memory query: reported bytes == bytes of tensors found by an '
         'independent walk, second-order data held iff gradient worker, '
         'gradient workers form the grid column of the inverse worker; per '
